@@ -4,9 +4,12 @@
      - numeric opcodes: the expressions generated from the C++ switch statements equal the arithmetic functions;
      - stack opcodes: the opcode bodies realise the prescribed stack pictures (incl. OP_PICK / OP_ROLL for every index);
      - CastToBool, CheckMinimalPush and the (size, first-false) condition stack equal their reference definitions.
-   C01_step_refines (whole-step simulation against an independent reference interpreter) is NOT proved; the order
+     - whole steps: an operation in a non-executed branch is a no-op (apart from the operation count) unless it is OP_IF..OP_ENDIF; an
+       executed push puts exactly its data on the stack; stepping a script to its end with the debugger performs exactly the evaluation loop
+       (one step per operation, same environment, same status).
+   C01_step_refines (whole-step simulation of every opcode against one independent reference interpreter) is NOT proved; the order
    of the checks inside one step is tied to the code by the generated sites and by the step-by-step correspondence. *)
-From BV Require Import Base BaseProofs ScriptNum Script Interp EvalSpec InterpProofs StackPictures NumExpr.
+From BV Require Import Base BaseProofs ScriptNum Script Interp Session EvalSpec InterpProofs StackPictures NumExpr StepProofs VerifySpec VerifyProofs.
 From BV.Gen Require Import Consts Sites NumOps.
 Local Open Scope Z_scope.
 
@@ -82,6 +85,32 @@ Theorem C01_condstack_refines : forall l f, cs_small l ->
   cs_empty (cs_of l) = match l with [] => true | _ => false end.
 Proof. intros. repeat match goal with |- _ /\ _ => split end; first [apply cs_push_refines; assumption | apply cs_pop_refines; assumption | apply cs_toggle_refines; assumption | apply cs_all_true_refines; assumption | apply cs_empty_refines]. Qed.
 
+(* ---- whole steps *)
+Theorem C01_skipped_operation_is_noop : forall low_s c e pc local opcode push pc' e1 pc1,
+  get_op pc = (Some (opcode, push), pc') -> cs_all_true (e_cond e) = false -> (OP_IF <=? opcode) && (opcode <=? OP_ENDIF) = false ->
+  step_script low_s c e pc local = (e1, pc1, SOk) ->
+  pc1 = pc' /\ e_stack e1 = e_stack e /\ e_alt e1 = e_alt e /\ e_cond e1 = e_cond e /\ e_cb e1 = e_cb e /\ e_ed e1 = e_ed e /\
+  e_script e1 = e_script e /\ (e_ops e1 = e_ops e \/ e_ops e1 = e_ops e + 1).
+Proof. exact skipped_operation_is_noop. Qed.
+
+Theorem C01_executed_push : forall low_s c e pc local opcode push pc' e1 pc1,
+  get_op pc = (Some (opcode, push), pc') -> cs_all_true (e_cond e) = true -> 0 <= opcode <= OP_PUSHDATA4 ->
+  step_script low_s c e pc local = (e1, pc1, SOk) ->
+  pc1 = pc' /\ e_stack e1 = push :: e_stack e /\ e_alt e1 = e_alt e /\ e_cond e1 = e_cond e /\ e_cb e1 = e_cb e /\ e_ops e1 = e_ops e /\
+  (req_minimal c = true -> check_minimal_push push opcode = true) /\ zlen push <= MAX_SCRIPT_ELEMENT_SIZE.
+Proof. exact executed_push. Qed.
+
+(* stepping = evaluating: letting the debugger run the current script to its end (continue) performs exactly the evaluation loop
+   [eval_loop_ref] - the same one-step function applied operation after operation - and stops where it stops *)
+Theorem C01_stepping_is_evaluation : forall low_s tap_tweak_ok sha256 c g v f,
+  (length (i_pc v) < g)%nat -> (g <= f)%nat -> i_tce v = None -> i_done v = false ->
+  match eval_loop_ref low_s c g (i_e v) (i_pc v) with
+  | (e1, SOk) => exists v1 f1, Session.dbg_continue low_s tap_tweak_ok sha256 f c v = Session.dbg_continue low_s tap_tweak_ok sha256 f1 c v1 /\
+                               (f <= f1 + length (i_pc v))%nat /\ i_e v1 = e1 /\ i_pc v1 = [] /\ same_shell v v1
+  | (e1, st) => exists v1, Session.dbg_continue low_s tap_tweak_ok sha256 f c v = (v1, st) /\ i_e v1 = e1
+  end.
+Proof. exact phase. Qed.
+
 (* non-vacuity *)
 Example C01_ex_negzero : cast_to_bool [0; 128] = false /\ cast_to_bool [128; 0] = true /\ cast_to_bool [0; 0; 1] = true.
 Proof. repeat split. Qed.
@@ -89,6 +118,9 @@ Example C01_ex_cond : cs_toggle (cs_push (cs_push cs_empty_stack true) false) = 
 Proof. reflexivity. Qed.
 
 Print Assumptions C01_num_unary.
+Print Assumptions C01_skipped_operation_is_noop.
+Print Assumptions C01_executed_push.
+Print Assumptions C01_stepping_is_evaluation.
 Print Assumptions C01_num_binary.
 Print Assumptions C01_num_within.
 Print Assumptions C01_pic_2rot.
